@@ -230,7 +230,7 @@ func (e *Engine) typedAxiom(h Term, key string) (Term, bool) {
 func (e *Engine) closednessAxiom(h Term, key string, bound Term) (Term, bool) {
 	kind := e.heapValKind[key]
 	if kind == "" {
-		return Term{}, false
+		return e.closednessNested(h, key, bound)
 	}
 	isMem := strings.HasPrefix(key, "Mem|")
 	var val Term
